@@ -91,6 +91,8 @@ func C06(c *Ctx) {
 	c.R.Rule("C06-R1", "E1", "no write through any argument of Step/Walk nor to a package-level variable", 10)
 	c.R.Rule("C06-R2", "E1", "returned states' bindings maps never alias the given state's bindings map", 3)
 	c.R.Rule("C06-R4", "E1", "the action wrapper (FuncAction.Exec) writes nothing it is given and no package-level state", 2)
+	c.shareRule("C03", "C03-R1", "C06-R8", "the matcher every step calls keeps nothing between calls: no memo, no counter, no tuned setting survives a step")
+	c.shareRule("C10", "C10-R3", "C06-R9", "the in-repo interpreter, which E1 reaches only through the callback it cuts, writes nothing it is given: the bindings of the state being stepped stay as they were")
 	c.shareRule("C18", "C18-R6", "C06-R6", "a native action or guard works on its own copy of the given bindings (also with the permanent-bindings feature switched off)")
 	c.R.Rule("C06-R5", "E1", "no script runtime outlives an execution (the engine keeps no state in one)", 3)
 	c.R.Rule("C06-R3", "E1", "ECMAScript actions and guards see copies: no caller data reachable from values given to the script runtime", 1)
